@@ -3,6 +3,8 @@ mod checks;
 mod common;
 mod gen;
 mod project;
+mod lsptext;
+mod session;
 mod progs;
 mod reflex;
 mod soup;
@@ -17,6 +19,7 @@ fn usage() -> ! {
 
 fn run_check(id: &str, tier: Tier) -> Option<Report> {
     Some(match id {
+        "C02" => checks::c02::run(tier),
         "C04" => checks::c04::run(tier),
         "C06" => checks::c06::run(tier),
         "C07" => checks::c07::run(tier),
@@ -26,6 +29,7 @@ fn run_check(id: &str, tier: Tier) -> Option<Report> {
 
 fn replay_case(id: &str, case: &Value) -> Option<Vec<Failure>> {
     Some(match id {
+        "C02" => checks::c02::replay(case),
         "C04" => checks::c04::replay(case),
         "C06" => checks::c06::replay(case),
         "C07" => checks::c07::replay(case),
@@ -85,5 +89,19 @@ fn main() {
             }
         }
         _ => usage(),
+    }
+}
+
+#[cfg(test)]
+mod smoke {
+    #[test]
+    fn session_smoke() {
+        let mut s = crate::session::Session::new(true);
+        s.open(crate::session::URI, "proc main() { }\n");
+        let id = s.request("textDocument/foldingRange", crate::session::doc_request_params("textDocument/foldingRange", crate::session::URI));
+        let o = s.run();
+        assert!(o.error.is_none(), "{:?}", o.error);
+        assert!(o.responses().contains_key(&id), "{:?}", o.frames);
+        assert_eq!(o.notifications("textDocument/publishDiagnostics").len(), 1);
     }
 }
